@@ -72,7 +72,7 @@ let handle = function
                                        m_an = n_of_int an; m_ns = N0; m_ar = N0; m_qs = qs } in
       let q l = Some (List.map n_of_int l) in
       let pkt id = function
-        | 'G' | 'U' -> mk id false 0 1 0 (q [0]) | 'T' -> mk id true 0 1 0 (q [0]) | 'X' -> mk id false 0 1 1 (q [0])
+        | 'G' | 'U' -> mk id false 0 1 0 (q [0]) | 'T' -> mk id true 0 1 0 (q [0]) | 'K' -> mk id true 0 1 1 (q [0]) | 'X' -> mk id false 0 1 1 (q [0])
         | 'E' -> mk id false 3 1 0 (q [0]) | 'H' -> mk id false 2 0 0 (q [])
         | 'I' | 'P' -> mk ((id + 1) land 65535) false 0 1 0 (q [0])
         | 'Q' -> (match mk id false 0 1 0 (q [0]) with PMsg m -> PMsg { m with m_qr = false } | p -> p)
@@ -94,5 +94,36 @@ let handle = function
                             (int_of_n m.m_rcode) (if m.m_tc then 1 else 0) (int_of_n m.m_an)
        | DErr (e, t) -> Printf.sprintf "Err %s t=%d sends=%d"
                           (match int_of_n e with 1 -> "connect" | 2 -> "send" | 3 -> "receive" | _ -> "timeout") (int_of_n t) (int_of_n sends))
+  | "sm" :: idle :: evs ->
+      (* s<k> submit by caller k (question token k); f connection failure;
+         p<id>:<qr>:<rcode>:<qd>:<an>:<tc>:<qs> a reply (qs: comma list of tokens, - empty, bad) *)
+      let lst s = if s = "-" then [] else List.map ni (String.split_on_char ',' s) in
+      let ev t =
+        match t.[0] with
+        | 's' -> let k = ni (String.sub t 1 (String.length t - 1)) in ESubmit (k, [k], false, false)
+        | 'f' -> EFail (n_of_int 1)
+        | 'p' -> (match String.split_on_char ':' (String.sub t 1 (String.length t - 1)) with
+                  | [id; qr; rc; qd; an; tc; qs] ->
+                      EReply { m_id = ni id; m_qr = (qr = "1"); m_tc = (tc = "1"); m_rcode = ni rc; m_qd = ni qd; m_an = ni an;
+                               m_ns = N0; m_ar = N0; m_qs = (if qs = "bad" then None else Some (lst qs)) }
+                  | _ -> failwith "bad reply event")
+        | _ -> failwith "bad event" in
+      let evl = List.map ev evs in
+      (match c15_demux (idle = "1") evl with
+       | Ok s ->
+           let callers = List.filter_map (function ESubmit (k, _, _, _) -> Some k | _ -> None) evl in
+           let term = List.filter (fun ((_, mu), d) -> (match d with DAnswer _ | DWrong -> not mu | _ -> true)) s.st_log in
+           let order = String.concat "," (List.map (fun ((c, _), _) -> string_of_int (int_of_n c)) term) in
+           let cls c =
+             let wire = (match List.find_opt (fun ((c', _), _) -> c' = c) s.st_sent with
+                         | Some ((_, i), _) -> string_of_int (int_of_n i) | None -> "-") in
+             let r = (match List.find_opt (fun ((c', _), _) -> c' = c) term with
+                      | Some (_, DAnswer m) -> Printf.sprintf "A%d.%d.%d" (int_of_n m.m_rcode) (int_of_n m.m_an) (if m.m_tc then 1 else 0)
+                      | Some (_, DWrong) -> "W"
+                      | Some (_, _) -> "E"
+                      | None -> if c15_pending c s then "P" else "?") in
+             Printf.sprintf "%d=%s@%s" (int_of_n c) r wire in
+           (if order = "" then "-" else order) ^ " | " ^ String.concat " " (List.map cls callers)
+       | Panic _ -> "Panic" | Err _ -> "Err" | OutOfFuel -> "OutOfFuel")
   | _ -> failwith "bad case line"
 let () = main handle
